@@ -30,6 +30,7 @@ inline std::string jesc(const std::string& s) {
     }
     return o + "\"";
 }
+inline std::string clause_of(const std::string& err) { auto p = err.find(':'); return p == std::string::npos ? err : err.substr(0, p); }
 inline std::string jnum(double d) { if (!std::isfinite(d)) return "null"; char b[40]; snprintf(b, sizeof b, "%.17g", d); return b; }
 
 struct Args {
